@@ -794,6 +794,12 @@ class Session:
     # -- environment ---------------------------------------------------- #
 
     def setup(self):
+        from .seams import salt_begin_run
+        from .kernel import derive_seed
+
+        # seam S3: set/dict order over Syms, procs, configs and memories becomes a
+        # function of the session, not of memory addresses
+        salt_begin_run(derive_seed("salt", self.data.get("inputs_seed", 0), self.data.get("src", "")) & ((1 << 48) - 1))
         self.solver.install()
         lib = define(gen_prog.LIB_SRC, tag="lib")
         ns = define(self.data["src"], dict(lib, SimStatic=get_simstatic()), tag="prog")
@@ -1028,11 +1034,40 @@ class Session:
             if name in ("replace",) and prop in ("C01", "C04"):
                 prop = "C05"
             extra = None
+            if name == "replace":
+                extra = {"pred": self.replace_pred(pid_in, pid_out)}
             if v["sig"] == "unbound-use":
                 from .oracles.validator import binder_kind
 
-                extra = {"binder": binder_kind(self.procs[pid_in]._loopir_proc, v["detail"].split(" ")[0])}
+                extra = dict(extra or {}, binder=binder_kind(self.procs[pid_in]._loopir_proc, v["detail"].split(" ")[0]))
             self.violate(prop, v["sig"], f"after {name}{tag}: {v['detail']}", name + tag, extra)
+
+    def replace_pred(self, pid_in, pid_out):
+        """Structural predicate used to keep the known-finding key for replace
+        narrow: does the replaced code touch a buffer that is not passed to the
+        new call?  (One callee buffer unified with two different buffers.)"""
+        try:
+            a, b = self.procs[pid_in]._loopir_proc, self.procs[pid_out]._loopir_proc
+            old_ids = {id(s) for _, s in stmt_paths(a)}
+            new_calls = [s for _, s in stmt_paths(b) if isinstance(s, LoopIR.Call) and id(s) not in old_ids]
+            new_ids = {id(s) for _, s in stmt_paths(b)}
+            gone = [s for pth, s in stmt_paths(a) if id(s) not in new_ids and len(pth) >= 1]
+            # outermost removed statements only
+            passed = set()
+            for c in new_calls:
+                for e in c.args:
+                    if isinstance(e, (LoopIR.Read, LoopIR.WindowExpr)) and e.type.is_numeric():
+                        passed.add(e.name)
+            touched = {sym for _, _, sym in _buffers_in(gone)}
+            scal = set()
+            for st in gone:
+                if isinstance(st, (LoopIR.Assign, LoopIR.Reduce)) and not st.idx:
+                    scal.add(st.name)
+            if new_calls and (touched - passed):
+                return "block-buffer-not-passed"
+        except Exception:
+            pass
+        return ""
 
     def check_fwd(self, name, pid_in, pid_out):
         from .oracles.forwarding import check_forwarding
